@@ -1,4 +1,5 @@
 import CoxeterVerif.Lemmas.Solid
+import CoxeterVerif.Lemmas.ChainCheck
 /-!
   # C01 — convex polyhedron volume, centroid, inertia are exact; order independent
 
@@ -6,6 +7,13 @@ import CoxeterVerif.Lemmas.Solid
   `Ts` : ANY tetrahedralisation of the solid whose boundary chain is `S` (`ChainEq`);
   the "exact integrals" are the sums of tetrahedron closed forms (`Spec.vol/first/second`).
   All statements are over ℝ and unbounded in the number of vertices, faces and tetrahedra.
+
+  The hypothesis `ChainEq S (Ts.flatMap Tet.bdry)` is CHECKED on every run: `chainCheck`
+  (`Model/ChainCheck.lean`, run by the driver in ℚ) is sound (`chainCheck_rat_sound`), a closed
+  surface bounds its cone from any apex (`cone_closed`), and `cp_measures_exact_checked` states the
+  exactness theorems directly in terms of what the driver evaluates.  Per-face area/centroid are
+  exact and independent of the triangulation of the face (`cp_face_centroid_exact`,
+  `cp_face_centroid_retriangulation`), the surface area is the sum of the face areas.
 -/
 open Scalar
 set_option maxRecDepth 4000
@@ -228,5 +236,272 @@ theorem cp_face_area_exact (simps : List (Tri ℝ)) (u : V3 ℝ) (hu : V3.norm u
   induction simps with
   | nil => simp
   | cons t ts ih => simp only [List.map_cons, List.sum_cons, ih]; ring
+
+end
+
+/-! ### the chain hypothesis is checkable: soundness of `chainCheck` / `closedCheck` -/
+noncomputable section
+open CCk
+
+/-- **Soundness of the chain checker over ℝ.** If the cancellation checker accepts `S`, `T` then
+they are equal as 2-chains — the hypothesis of every `_exact` theorem above is decidable-by-certificate. -/
+theorem chainCheck_sound {S T : List (Tri ℝ)} (h : ChainCheck.chainCheck S T = true) : ChainEq S T := by
+  have := chainCheck_sound_gen eqb_real_sound id h
+  simpa [triTo_id] using this
+
+/-- **Soundness of the chain checker as the driver runs it** (`Q` mode, exact rationals — the exact
+values of the doubles of the run): acceptance gives `ChainEq` of the real triangles. -/
+theorem chainCheck_rat_sound {S T : List (Tri ℚ)} (h : ChainCheck.chainCheck S T = true) :
+    ChainEq (S.map triOfRat) (T.map triOfRat) :=
+  chainCheck_sound_gen eqb_rat_sound v3OfRat h
+
+/-- the form the driver op `chain.check` evaluates: `S` against the boundary of tetrahedra `Ts` -/
+theorem chainCheck_tets_rat_sound {S : List (Tri ℚ)} {Ts : List (Tet ℚ)}
+    (h : ChainCheck.chainCheck S (Ts.flatMap Tet.bdry) = true) :
+    ChainEq (S.map triOfRat) ((Ts.map tetOfRat).flatMap Tet.bdry) := by
+  have := chainCheck_rat_sound h
+  unfold triOfRat at this
+  rwa [flatMap_bdry_tetTo] at this
+
+/-- **Per-run tie, volume.** When `chain.check` answers `true` on the run's `S`, `Ts`, the model's
+signed volume of the (real) surface equals the exact volume of the (real) tetrahedra. -/
+theorem cp_volume_exact_checked {S : List (Tri ℚ)} {Ts : List (Tet ℚ)}
+    (h : ChainCheck.chainCheck S (Ts.flatMap Tet.bdry) = true) :
+    CP.signedVolume (S.map triOfRat) = Spec.vol (Ts.map tetOfRat) :=
+  cp_volume_exact (chainCheck_tets_rat_sound h)
+
+/-- **Per-run tie, volume / centroid / inertia.** All three hypotheses are the Booleans / the sign
+the driver op `chain.check` evaluates exactly in ℚ on the run's own `S`, `Ts`: chain equality by
+cancellation, exact non-degeneracy of every simplex, positive exact volume. -/
+theorem cp_measures_exact_checked {S : List (Tri ℚ)} {Ts : List (Tet ℚ)}
+    (h : ChainCheck.chainCheck S (Ts.flatMap Tet.bdry) = true)
+    (hnd : ChainCheck.nondegCheck S = true) (hpos : 0 < Spec.vol Ts) :
+    CP.volume (S.map triOfRat) = Spec.vol (Ts.map tetOfRat) ∧
+    CP.centroid (S.map triOfRat) (CP.volume (S.map triOfRat)) = Spec.centroid (Ts.map tetOfRat) ∧
+    CP.inertia (S.map triOfRat) (CP.centroid (S.map triOfRat) (CP.volume (S.map triOfRat)))
+        (CP.volume (S.map triOfRat)) = Spec.inertia (Ts.map tetOfRat) := by
+  have hc := chainCheck_tets_rat_sound h
+  have hp : 0 < Spec.vol (Ts.map tetOfRat) := by
+    rw [vol_ofRat]; exact_mod_cast hpos
+  exact ⟨cp_abs_volume_exact hc hp.le, cp_centroid_exact hc hp,
+    cp_inertia_exact' hc (nondegCheck_rat_sound hnd) hp⟩
+
+/-- soundness of the closed-surface checker over ℝ and as the driver runs it -/
+theorem closedCheck_sound {S : List (Tri ℝ)} (h : ChainCheck.closedCheck S = true) : ClosedSurface S := by
+  have := cancelEdges_sound eqb_real_sound id _ _ h
+  rw [flatMap_edgesOf_triTo] at this
+  simpa [triTo_id, ClosedSurface] using this
+
+theorem closedCheck_rat_sound {S : List (Tri ℚ)} (h : ChainCheck.closedCheck S = true) :
+    ClosedSurface (S.map triOfRat) := by
+  have := cancelEdges_sound eqb_rat_sound v3OfRat _ _ h
+  rw [flatMap_edgesOf_triTo] at this
+  exact this
+
+/-! ### the cone over a closed surface -/
+
+/-- **cone_closed.** A closed oriented surface `S` (directed edges cancel) is the boundary chain of
+the cone tetrahedra `(p, a, b, c)` from ANY apex `p`: the inner faces `(p, x, y)` cancel in pairs. -/
+theorem cone_closed {S : List (Tri ℝ)} (h : ClosedSurface S) (p : V3 ℝ) :
+    ChainEq S ((ChainCheck.cone p S).flatMap Tet.bdry) := by
+  intro φ hφ
+  have hodd : OddEdge (fun e : Edge => φ ⟨p, e.1, e.2⟩) := fun x y => oddCyclic_swap hφ p x y
+  have h0 := h _ hodd
+  rw [sumOver_cone hφ p S, h0]
+  simp [sumEdges]
+
+/-- checker form: what the driver's `closedCheck` certifies for the run's surface -/
+theorem cone_closed_checked {S : List (Tri ℚ)} (h : ChainCheck.closedCheck S = true) (p : V3 ℝ) :
+    ChainEq (S.map triOfRat) ((ChainCheck.cone p (S.map triOfRat)).flatMap Tet.bdry) :=
+  cone_closed (closedCheck_rat_sound h) p
+
+/-- for a closed surface the signed volume IS the volume of the cone from any apex
+(in particular it does not depend on the apex) -/
+theorem cp_volume_cone {S : List (Tri ℝ)} (h : ClosedSurface S) (p : V3 ℝ) :
+    CP.signedVolume S = Spec.vol (ChainCheck.cone p S) :=
+  cp_volume_exact (cone_closed h p)
+
+/-! non-vacuity: the tetrahedron surface is accepted by both checkers (evaluated in ℚ) -/
+
+def exTq : Tet ℚ := ⟨⟨0,0,0⟩, ⟨1,0,0⟩, ⟨0,1,0⟩, ⟨0,0,1⟩⟩
+
+example : ChainCheck.closedCheck exTq.bdry = true := by decide +kernel
+example : ChainCheck.chainCheck exTq.bdry
+    ((ChainCheck.cone ⟨1/4, 1/4, 1/4⟩ exTq.bdry).flatMap Tet.bdry) = true := by decide +kernel
+example : ClosedSurface (exTq.bdry.map triOfRat) := closedCheck_rat_sound (by decide +kernel)
+example : ChainCheck.nondegCheck exTq.bdry = true := by decide +kernel
+example : (0 : ℚ) < Spec.vol (ChainCheck.cone ⟨1/4, 1/4, 1/4⟩ exTq.bdry) := by decide +kernel
+
+end
+/-! ### per-face centroid and area through the face's boundary edges -/
+noncomputable section
+open CCk
+
+/-- **C01 per-face area, boundary form.** Under the hypotheses of `cp_face_area_exact`, the
+reported face area is half the shoelace sum over ANY edge chain `E` equal to the boundary of the
+face's simplices (e.g. the polygon's own cycle of edges) — independent of the triangulation. -/
+theorem cp_face_area_boundary (simps : List (Tri ℝ)) (u o : V3 ℝ) (hu : V3.norm u = 1)
+    (lam : Tri ℝ → ℝ) (hlam : ∀ t ∈ simps, 0 ≤ lam t ∧ t.nvec = V3.smul (lam t) u)
+    (E : List Edge) (hE : EdgeChainEq (simps.flatMap triEdges) E) :
+    CP.faceArea simps = FacePlane.area2 u o E / 2 := by
+  have hA : FacePlane.area2 u o E = (simps.map lam).sum := by
+    unfold FacePlane.area2
+    rw [Scalar.sum_real]
+    change sumEdges (FacePlane.edgeCross u o) E = _
+    rw [← hE _ (edgeCross_odd u o), sumEdges_flatMap]
+    congr 1
+    apply List.map_congr_left
+    intro t ht
+    rw [edgeCross_tri, dot_nvec_of_lam hu (hlam t ht).2]
+  rw [hA]
+  unfold CP.faceArea
+  rw [Scalar.sum_real, List.map_congr_left (fun t ht => triArea_of_lam hu (hlam t ht).1 (hlam t ht).2)]
+  clear hA hE hlam
+  induction simps with
+  | nil => simp
+  | cons t ts ih => simp only [List.map_cons, List.sum_cons, ih]; ring
+
+/-- **C01 per-face centroid.** If the simplices of one face are consistently oriented
+(`(b−a)×(c−a) = λ_t•u`, `λ_t ≥ 0`, `|u| = 1`) and lie in the plane `u·(x−o) = 0`, then the
+area-weighted mean of simplex centroids (`_find_face_centroids`) equals the textbook boundary
+formula for the centroid of the planar polygon, evaluated on ANY edge chain `E` equal to the
+boundary of the simplices — for tilted planes as well as axis-parallel ones. -/
+theorem cp_face_centroid_exact (simps : List (Tri ℝ)) (u o : V3 ℝ) (hu : V3.norm u = 1)
+    (lam : Tri ℝ → ℝ) (hlam : ∀ t ∈ simps, 0 ≤ lam t ∧ t.nvec = V3.smul (lam t) u)
+    (hplane : ∀ t ∈ simps, V3.dot u (t.a - o) = 0 ∧ V3.dot u (t.b - o) = 0 ∧ V3.dot u (t.c - o) = 0)
+    (E : List Edge) (hE : EdgeChainEq (simps.flatMap triEdges) E) :
+    CP.faceCentroid simps = FacePlane.centroid u o E := by
+  have hA : FacePlane.area2 u o E = (simps.map lam).sum := by
+    unfold FacePlane.area2
+    rw [Scalar.sum_real]
+    change sumEdges (FacePlane.edgeCross u o) E = _
+    rw [← hE _ (edgeCross_odd u o), sumEdges_flatMap]
+    congr 1
+    apply List.map_congr_left
+    intro t ht
+    rw [edgeCross_tri, dot_nvec_of_lam hu (hlam t ht).2]
+  have hM : ∀ i, i < 3 → (FacePlane.moment u o E).get i
+      = (simps.map fun t => lam t * (t.a + t.b + t.c).get i).sum := by
+    intro i hi
+    unfold FacePlane.moment
+    rw [v3_sum_get _ i hi, List.map_map]
+    have : ((fun v : V3 ℝ => v.get i) ∘ fun e : Edge => V3.smul (FacePlane.edgeCross u o e) (o + e.1 + e.2))
+        = faceMomentPhi u o i := by
+      funext e; simp only [Function.comp, faceMomentPhi, v3_smul_get _ _ i hi]
+    rw [this]
+    change sumEdges (faceMomentPhi u o i) E = _
+    rw [← hE _ (faceMomentPhi_odd u o i hi), sumEdges_flatMap]
+    congr 1
+    apply List.map_congr_left
+    intro t ht
+    obtain ⟨ha, hb, hc⟩ := hplane t ht
+    rw [faceMomentPhi_tri u o i hi t ha hb hc, dot_nvec_of_lam hu (hlam t ht).2]
+  have hareas : (simps.map CP.triArea).sum = (simps.map lam).sum / 2 := by
+    rw [List.map_congr_left (fun t ht => triArea_of_lam hu (hlam t ht).1 (hlam t ht).2)]
+    clear hA hM hE hlam hplane
+    induction simps with
+    | nil => simp
+    | cons t ts ih => simp only [List.map_cons, List.sum_cons, ih]; ring
+  have hnum : ∀ i, i < 3 →
+      (V3.sum (simps.map fun t => V3.smul (CP.triArea t) (V3.sdiv (t.a + t.b + t.c) (lit 3)))).get i
+        = (simps.map fun t => lam t * (t.a + t.b + t.c).get i).sum / 6 := by
+    intro i hi
+    rw [v3_sum_get _ i hi, List.map_map]
+    have : ∀ t ∈ simps, ((fun v : V3 ℝ => v.get i) ∘
+        fun t => V3.smul (CP.triArea t) (V3.sdiv (t.a + t.b + t.c) (lit 3))) t
+        = (1 / 6) * (lam t * (t.a + t.b + t.c).get i) := by
+      intro t ht
+      simp only [Function.comp, v3_smul_get _ _ i hi, v3_sdiv_get _ _ i hi,
+        triArea_of_lam hu (hlam t ht).1 (hlam t ht).2, Scalar.lit, Scalar.ofNat_real]
+      push_cast; ring
+    rw [List.map_congr_left this, list_sum_map_mul]; ring
+  apply V3.ext_get
+  intro i hi
+  unfold CP.faceCentroid FacePlane.centroid
+  simp only [Scalar.sum_real]
+  rw [v3_sdiv_get _ _ i hi, v3_sdiv_get _ _ i hi, hnum i hi, hareas, hM i hi, hA]
+  simp only [Scalar.lit, Scalar.ofNat_real]
+  push_cast
+  by_cases h0 : (simps.map lam).sum = 0
+  · simp [h0]
+  · field_simp; ring
+
+/-- **Face centroid and area do not depend on the triangulation of the face**: two simplex
+lists in the same plane, with the same orientation and the same boundary edge chain report the
+same centroid (the diagonals Qhull happens to choose inside a non-triangular facet are immaterial). -/
+theorem cp_face_centroid_retriangulation (simps simps' : List (Tri ℝ)) (u o : V3 ℝ)
+    (hu : V3.norm u = 1) (lam lam' : Tri ℝ → ℝ)
+    (hlam : ∀ t ∈ simps, 0 ≤ lam t ∧ t.nvec = V3.smul (lam t) u)
+    (hlam' : ∀ t ∈ simps', 0 ≤ lam' t ∧ t.nvec = V3.smul (lam' t) u)
+    (hplane : ∀ t ∈ simps, V3.dot u (t.a - o) = 0 ∧ V3.dot u (t.b - o) = 0 ∧ V3.dot u (t.c - o) = 0)
+    (hplane' : ∀ t ∈ simps', V3.dot u (t.a - o) = 0 ∧ V3.dot u (t.b - o) = 0 ∧ V3.dot u (t.c - o) = 0)
+    (hE : EdgeChainEq (simps.flatMap triEdges) (simps'.flatMap triEdges)) :
+    CP.faceCentroid simps = CP.faceCentroid simps' ∧ CP.faceArea simps = CP.faceArea simps' := by
+  constructor
+  · rw [cp_face_centroid_exact simps u o hu lam hlam hplane _ hE,
+      cp_face_centroid_exact simps' u o hu lam' hlam' hplane' _ (EdgeChainEq.refl _)]
+  · rw [cp_face_area_boundary simps u o hu lam hlam _ hE,
+      cp_face_area_boundary simps' u o hu lam' hlam' _ (EdgeChainEq.refl _)]
+
+/-! non-vacuity: the unit square at height 1 split along either diagonal -/
+
+def sqA : List (Tri ℝ) := [⟨⟨0,0,1⟩,⟨1,0,1⟩,⟨1,1,1⟩⟩, ⟨⟨0,0,1⟩,⟨1,1,1⟩,⟨0,1,1⟩⟩]
+def sqB : List (Tri ℝ) := [⟨⟨0,0,1⟩,⟨1,0,1⟩,⟨0,1,1⟩⟩, ⟨⟨1,0,1⟩,⟨1,1,1⟩,⟨0,1,1⟩⟩]
+
+example : V3.norm (⟨0,0,1⟩ : V3 ℝ) = 1 := by
+  unfold V3.norm V3.normSq; unfold_model; norm_num
+
+example : ∀ t ∈ sqA, 0 ≤ (fun _ => (1:ℝ)) t ∧ t.nvec = V3.smul ((fun _ => (1:ℝ)) t) ⟨0,0,1⟩ := by
+  intro t ht
+  simp only [sqA, List.mem_cons, List.not_mem_nil, or_false] at ht
+  rcases ht with rfl | rfl <;> refine ⟨by norm_num, ?_⟩ <;> ext <;> unfold_model <;> norm_num
+
+example : ∀ t ∈ sqB, V3.dot (⟨0,0,1⟩ : V3 ℝ) (t.a - ⟨0,0,1⟩) = 0 ∧ V3.dot (⟨0,0,1⟩ : V3 ℝ) (t.b - ⟨0,0,1⟩) = 0
+    ∧ V3.dot (⟨0,0,1⟩ : V3 ℝ) (t.c - ⟨0,0,1⟩) = 0 := by
+  intro t ht
+  simp only [sqB, List.mem_cons, List.not_mem_nil, or_false] at ht
+  rcases ht with rfl | rfl <;> refine ⟨?_, ?_, ?_⟩ <;> unfold_model <;> norm_num
+
+example : EdgeChainEq (sqA.flatMap triEdges) (sqB.flatMap triEdges) := by
+  intro φ hφ
+  have h1 := hφ (⟨0,0,1⟩ : V3 ℝ) ⟨1,1,1⟩
+  have h2 := hφ (⟨1,0,1⟩ : V3 ℝ) ⟨0,1,1⟩
+  simp only [sumEdges, sqA, sqB, triEdges, List.flatMap_cons, List.flatMap_nil, List.map_cons, List.map_nil,
+    List.sum_cons, List.sum_nil, List.append_nil, List.cons_append, List.nil_append]
+  linarith
+
+/-! ### total surface area -/
+
+/-- **C01 surface area = Σ face areas** whenever the face groups partition the simplices
+(`_coplanar_simplices` is a partition of `range(len(simplices))`). -/
+theorem cp_surface_area_eq_sum_faces (S : List (Tri ℝ)) (faces : List (List (Tri ℝ)))
+    (hpart : S.Perm faces.flatten) : CP.surfaceArea S = (faces.map CP.faceArea).sum := by
+  unfold CP.surfaceArea
+  rw [Scalar.sum_real, (hpart.map CP.triArea).sum_eq]
+  clear hpart
+  induction faces with
+  | nil => simp
+  | cons f fs ih =>
+    simp only [List.flatten_cons, List.map_append, List.sum_append, List.map_cons, List.sum_cons, ih]
+    unfold CP.faceArea; rw [Scalar.sum_real]
+
+/-- **C01 surface area is exact**: if moreover every face group is coplanar and consistently
+oriented, the reported surface area is `Σ_faces |area vector of the face| / 2`. -/
+theorem cp_surface_area_exact (S : List (Tri ℝ)) (faces : List (List (Tri ℝ)))
+    (hpart : S.Perm faces.flatten)
+    (hfaces : ∀ f ∈ faces, ∃ (u : V3 ℝ) (lam : Tri ℝ → ℝ), V3.norm u = 1 ∧
+      ∀ t ∈ f, 0 ≤ lam t ∧ t.nvec = V3.smul (lam t) u) :
+    CP.surfaceArea S = (faces.map fun f => V3.norm (V3.sum (f.map Tri.nvec)) / 2).sum := by
+  rw [cp_surface_area_eq_sum_faces S faces hpart]
+  congr 1
+  apply List.map_congr_left
+  intro f hf
+  obtain ⟨u, lam, hu, hl⟩ := hfaces f hf
+  exact cp_face_area_exact f u hu lam hl
+
+example : sqA.Perm [[sqA[1]], [sqA[0]]].flatten := by
+  simp only [sqA, List.flatten_cons, List.flatten_nil, List.getElem_cons_zero, List.getElem_cons_succ,
+    List.singleton_append, List.append_nil]
+  exact List.Perm.swap _ _ _
 
 end
